@@ -209,6 +209,8 @@ def run_impl_surviving(mode, lines, d, tag, env=None, max_crashes=12, timeout=30
         crashes.append((missing[0], rc, err[-600:]))
         todo = missing[1:]
         if len(crashes) >= max_crashes:
+            for l in todo:
+                results[l.split(' ')[1]] = 'NOTRUN'
             break
     return results, crashes
 
@@ -374,6 +376,9 @@ def codec_check(ck, d, n_records, n_prefix_records, n_corrupt_per_record, n_rand
                'model(Codec.dec_env)': m, 'implementation(storage::read_saved_target_env_state)': r,
                'replay': 'write the bytes to <project>/.zinoma/<target>.checksums of a target with inputs and run zinoma <target>; '
                          'or ZINOMA_VERIF=codec on the line: D x %s' % hx(b)}
+        if r == 'NOTRUN':
+            ck.tally('codec:not_run(crash budget of the batch exhausted)')
+            continue
         if cid in crashed_ids or r is None or r == 'PANIC':
             rc, err = crashed_ids.get(cid, (None, ''))
             rep['what'] = ('reading this state file kills zinoma (rc=%s): the file is never discarded, every later run of the '
@@ -752,17 +757,34 @@ def run_histories(ck, d, hists, tag, scratch=None):
     """Runs complete histories (no crash) in ONE implementation process; returns {hid: parsed invocations} and the scratch root."""
     scratch = scratch or os.path.join(d, 'trees_' + tag)
     os.makedirs(scratch, exist_ok=True)
-    lines = []
-    for hid, h in hists.items():
-        lines += history_lines(hid, h)
-    cf = os.path.join(d, 'impl_hist_%s.txt' % tag)
-    write_cases(cf, lines)
-    rc, out, err = vf.run_impl('incr', cf, env={'ZINOMA_VERIF_SCRATCH': scratch}, timeout=1200)
-    parsed = parse_impl_output(out)
     by_hist = {}
-    for t, v in parsed.items():
-        hid, _, k = t.rpartition('.')
-        by_hist.setdefault(hid, {})[int(k)] = v
+    todo = list(hists.items())
+    rc, err = 0, ''
+    for attempt in range(10):
+        lines = []
+        for hid, h in todo:
+            lines += history_lines(hid, h)
+        cf = os.path.join(d, 'impl_hist_%s_%d.txt' % (tag, attempt))
+        write_cases(cf, lines)
+        rc1, out, err1 = run_impl_limited('incr', cf, {'ZINOMA_VERIF_SCRATCH': scratch}, 1200)
+        parsed = parse_impl_output(out)
+        for t, v in parsed.items():
+            hid, _, k = t.rpartition('.')
+            by_hist.setdefault(hid, {})[int(k)] = v
+        # a history is complete when its last invocation has a `post` line; the process died in the first incomplete one
+        incomplete = None
+        for idx, (hid, h) in enumerate(todo):
+            n_inv = sum(1 for op in h['ops'] if op[0] in ('I', 'Q'))
+            last = by_hist.get(hid, {}).get(n_inv - 1)
+            if n_inv and (last is None or ('post' not in last and 'obs' not in last)):
+                incomplete = idx
+                break
+        if incomplete is None:
+            break
+        rc, err = rc1, err1
+        todo = todo[incomplete + 1:]
+        if not todo:
+            break
     return by_hist, os.path.realpath(scratch).encode(), rc, err
 
 
@@ -850,6 +872,7 @@ def check_histories(ck, d, hists, tag, props):
 
 def evaluate_histories(ck, hists, scratch_root, rc, err, index, order, model, decs):
     results = []
+    died = set()
     expect = {}          # (hid, target) -> world recorded at the last completion whose state could be stored, else None
     tampered = {}        # (hid, target) -> the state file was written/removed by something else than zinoma since
     for ev in order:
@@ -867,9 +890,17 @@ def evaluate_histories(ck, hists, scratch_root, rc, err, index, order, model, de
                 'replay': './check <property> --replay <this file>  (or: ZINOMA_VERIF=incr ZINOMA_VERIF_SCRATCH=<dir> on the case lines in `case_lines`)',
                 'case_lines': history_lines(hid, h)}
         if v is None:
-            rep = dict(base)
-            rep['what'] = 'the implementation produced no result for this invocation (process died? rc=%s) %s' % (rc, err[-400:])
-            report(ck, rep, True)
+            if hid in died:
+                ck.tally('inv:not_run(after the death of the process in this history)')
+            elif not any(i2[0] == hid and i2[2] is not None for i2 in index.values()):
+                died.add(hid)
+                ck.tally('inv:not_run(crash budget of the batch exhausted)')
+            else:
+                died.add(hid)
+                rep = dict(base)
+                rep['what'] = ('the process died during this invocation (rc=%s): no result, and everything that follows is lost. %s'
+                               % (rc, err[-400:]))
+                report(ck, rep, True)
             continue
         m = parse_model_line(model[cid])
         res = v['post']['result']
@@ -1196,7 +1227,16 @@ def zinoma_run(cwd, args, timeout=60):
     e = dict(os.environ)
     e.pop('ZINOMA_VERIF', None)
     e['RUST_BACKTRACE'] = '0'
-    p = subprocess.run([vf.ZINOMA] + args, cwd=cwd, env=e, stdout=subprocess.PIPE, stderr=subprocess.PIPE, timeout=timeout)
+    import resource
+
+    def limit():
+        resource.setrlimit(resource.RLIMIT_AS, (6 << 30, 6 << 30))
+    try:
+        p = subprocess.run([vf.ZINOMA] + args, cwd=cwd, env=e, stdout=subprocess.PIPE, stderr=subprocess.PIPE, timeout=timeout,
+                           preexec_fn=limit)
+    except subprocess.TimeoutExpired as x:
+        # 20x and more above any run of these projects (tens of milliseconds): reported as a hang
+        return -999, '', 'TIMEOUT after %d s (zinoma hangs)\n' % timeout + (x.stderr or b'').decode('utf-8', 'replace')
     return p.returncode, p.stdout.decode('utf-8', 'replace'), p.stderr.decode('utf-8', 'replace')
 
 
